@@ -288,6 +288,7 @@ def run(P, on_step=None, setup=None, at_stable=None, adversary=None, on_idle=Non
     if P.get("welcome_error_late"):
         W.late_welcome = tuple(P["welcome_error_late"])
     W.clean_drops = bool(P.get("clean_drops", True))       # some connection losses are graceful closes (code 1000)
+    W.raw_utf8 = bool(P.get("raw_utf8", False))            # the server sends non-ASCII text as raw UTF-8 JSON
     W.closing_drops = bool(P.get("closing_drops", False))  # ... through a window in which the WebSocket is CLOSING (sendMessage raises)
     rec.world = W
     tape = Tape(P["tape"])
